@@ -277,6 +277,11 @@ structure Call where
   value  : Nat
   fee    : Nat
   nonce  : Int
+  /-- the transaction's own `CreationDate`: chosen by the client (within the chain's tolerance) and in general
+  different from the creation date of the block that includes it. The contract must NOT judge expiry by it:
+  `Execute` hands `balances.GetBlock().CreationDate` to `vote` (sc.go:76) — the `now` of `Op.vote`. The model
+  carries the field so that the difference is an explicit input of every case; nothing below reads it. -/
+  date   : Int := 0
 deriving Repr
 
 def Call.txn (c : Call) : Txn :=
@@ -300,7 +305,7 @@ def registerStep (feeOn : Bool) (s : MSt F) (c : Call) (r : Option (RegIn F)) : 
 def voteStep (hm : Xfer → F) (feeOn : Bool) (s : MSt F) (c : Call) (now : Int) (txn : Nat) (v : VoteIn F) : MSt F × Status :=
   settleMs feeOn s c (match vote hm s c.sender now txn v with | .error _ => none | .ok o => some (o.st, o.signed))
 
-/-! ## histories: every operation carries its block time -/
+/-! ## histories: every vote carries the creation date of its BLOCK (`now`); the transaction's own date is `c.date` -/
 
 inductive Op (F : Type) where
   | register (c : Call) (r : Option (RegIn F))
